@@ -227,10 +227,8 @@ class QuantitySerializer(Serializer):
 
     def serialize(self, data: Any) -> Union[List[str], str]:
         try:
-            return_value = []
-            for subvalue in data:
-                return_value.append(f"!units[{str(subvalue)}]")
-            return return_value
+            # an array: one string per element, nested like the array
+            return [self.serialize(subvalue) for subvalue in data]
         except TypeError:
             return f"!units[{str(data)}]"
 
